@@ -230,7 +230,14 @@ def _val(v):
         return int(m.group(1))
     m = re.match(r"^'(.*)'$", v)
     if m:
-        return v
+        c = m.group(1)
+        if len(c) == 1:
+            return ord(c)
+        esc = {'\\0': 0, '\\n': 10, '\\t': 9, '\\r': 13, "\\'": 39, '\\\\': 92}
+        if c in esc:
+            return esc[c]
+        mo = re.match(r'^\\(\d+)$', c)
+        return int(mo.group(1), 8) if mo else v
     if v in ('TRUE', 'true'):
         return 1
     if v in ('FALSE', 'false'):
@@ -607,11 +614,11 @@ def run_native(nat, spec, units, work, tier, seed):
     env['VERIF_SEED'] = str(seed)
     rc, out, secs = sh([exe] + [str(x) for x in a], timeout=nat.timeout, env=env)
     res = dict(exe=exe, log=out[-4000:], secs=secs)
-    m = re.search(r'^OK (\d+)(.*)$', out, re.M)
+    m = re.search(r'(?:^|\x1b\[0m)OK (\d+)(.*)$', out, re.M)
     if rc == 0 and m:
         res.update(status='ok', cases=int(m.group(1)), summary=('%s cases%s' % (m.group(1), m.group(2))))
         return res
-    m = re.search(r'^CEX (\S+)?\s*(\{.*\})$', out, re.M)
+    m = re.search(r'(?:^|\x1b\[0m)CEX (\S+)?\s*(\{.*\})$', out, re.M)
     if rc == 3 and m:
         try:
             res.update(status='cex', cex=json.loads(m.group(2)), cex_class=m.group(1) or '')
